@@ -495,6 +495,137 @@ def p_c19(prop, tier):
     return generic(prop, tier, jobs, rule, ["copies that accept nan/inf/infinity are recognised by the presence of their case-insensitive matcher; NaN is compared as 'is a NaN' (payload/sign not judged)"] + ASSUME_ORACLE)
 
 
+def p_c08(prop, tier):
+    sc = common.budget_scale()
+    if tier == "quick":
+        cells = [("default", "rel", "miri-sb", 4), ("default", "chk", "miri-sb", 2), ("alloc", "rel", "miri-sb", 2), ("nostd+compact", "rel", "miri-sb", 2), ("default", "rel", "miri-tb", 2), ("compact", "chk", "miri-tb", 2)]
+        count = int(200 * sc)
+        asan = [("default", "rel", 2), ("alloc", "rel", 1)]
+        asan_budget = 12
+        vg = []
+    else:
+        cells = [(c, p, i, 3) for c in ("default", "alloc", "compact", "nostd+compact", "compact+alloc") for p in ("rel", "chk") for i in ("miri-sb", "miri-tb")]
+        count = int(3000 * sc)
+        asan = [("default", "rel", 4), ("alloc", "rel", 3), ("compact", "rel", 2), ("nostd+compact", "rel", 2), ("default", "chk", 2)]
+        asan_budget = 120
+        vg = [("default", "rel", 3), ("alloc", "rel", 2), ("nostd+compact", "rel", 2)]
+    jobs = []
+    for (c, p, i, n) in cells:
+        a = ["--max-evals", str(count)]
+        j = Job("eng_mem", c, p, instr=i, shards=n, budget=30000, args=a, timeout=1800 if tier == "quick" else 7200)
+        jobs.append(j)
+        if not any(t.name == "eng_mem-%s-%s-twin" % (c.replace("+", "_"), p) and t.shards == n for t in jobs):
+            jobs.append(Job("eng_mem", c, p, shards=n, budget=30000, args=a, name="eng_mem-%s-%s-twin" % (c.replace("+", "_"), p)))
+    for (c, p, n) in asan:
+        jobs.append(Job("eng_mem", c, p, instr="asan", shards=n, budget=B(asan_budget)))
+    for (c, p, n) in vg:
+        jobs.append(Job("eng_mem", c, p, instr="valgrind", shards=n, budget=B(150), timeout=3000))
+    rule = ("parse_float::<f32|f64> on arbitrary bytes: every byte value, lengths 0..900 around the 19/20, 114 and 769 cut-offs, all-0xFF, all-0x00, '/' and ':' (neighbours of the digits), bytes >= 0x3a (garbage 'digits' up to 207 without subtraction overflow), "
+            "digits with sprinkled garbage, leading zeros, any exponent incl. i32::MIN/MAX; every third case is a valid input aimed at an unchecked-index site (fast-path exponents +-22/23/37/38 and +-10/11/17/18, disguised shifts 0..15, 19-digit chunks, "
+            "769-digit subnormals with the largest 5^k, long left shifts, every pow() remainder). No oracle runs: the judges are Miri (Stacked Borrows and Tree Borrows; rel and chk profiles), AddressSanitizer and (thorough) valgrind memcheck; "
+            "a clean panic is allowed and counted by class; results under Miri must equal the native run of the same seed. Non-trivial/distinct = distinct (integer bytes, fraction bytes, exponent).")
+
+    def post(m, results, cov, violations, inconclusive, workdir, sd):
+        # differential Miri vs native twin
+        nat = {}
+        for r in results:
+            if r.summary and r.job.instr == "native":
+                nat[(r.job.cfg, r.job.prof, r.idx, r.job.shards)] = r.summary["extra"].get("result_hash")
+        n = 0
+        per_tool = {}
+        for r in results:
+            if r.summary:
+                t = per_tool.setdefault(r.job.instr, {"executions": 0, "shards": 0, "clean_panics": 0})
+                t["executions"] += r.summary["evals"]
+                t["shards"] += 1
+                t["clean_panics"] += r.summary.get("counters", {}).get("panicked_cleanly", 0)
+            if r.summary and r.job.instr.startswith("miri"):
+                k = (r.job.cfg, r.job.prof, r.idx, r.job.shards)
+                if k in nat:
+                    n += 1
+                    if nat[k] != r.summary["extra"].get("result_hash"):
+                        body = {"property": prop, "engine": "eng_mem", "config": r.job.cfg, "profile": r.job.prof, "instr": r.job.instr, "what": "results under the interpreter differ from the native run of the same inputs", "command": r.cmd}
+                        path = write_replay(prop, sd, 700000 + n, body)
+                        violations.append({"sig": "miri-native-mismatch:%s:%s" % (r.job.cfg, r.job.prof), "what": body["what"], "replay": path})
+        cov["executions_per_tool"] = per_tool
+        cov["interpreter_shards_compared_with_native"] = n
+        for tool in (["miri-sb", "miri-tb", "asan"] + (["valgrind"] if tier == "thorough" else [])):
+            if per_tool.get(tool, {}).get("executions", 0) == 0:
+                inconclusive.append("no execution completed under %s" % tool)
+
+    return generic(prop, tier, jobs, rule, ["memory safety is decided for the paths these workloads reach, under the tools' models (Miri: Stacked/Tree Borrows on 10^3-10^5 executions; ASan/valgrind: 10^6+ executions, blind to intra-object overflow)",
+                                          "a report whose stack has no frame in /repo/src is treated as a harness problem (inconclusive)"] + ASSUME_ORACLE[1:], post=post)
+
+
+def p_c15(prop, tier):
+    if tier == "quick":
+        jobs = [Job("eng_pure", c, pr, shards=n, budget=B(12)) for (c, pr, n) in [("default", "rel", 4), ("compact", "rel", 3), ("nostd+compact", "rel", 3), ("default", "chk", 2), ("compact", "chk", 2), ("alloc", "rel", 2)]]
+    else:
+        jobs = [Job("eng_pure", c, pr, shards=n, budget=B(120)) for (c, pr, n) in [("default", "rel", 4), ("compact", "rel", 4), ("nostd+compact", "rel", 4), ("nostd", "rel", 4), ("default", "chk", 2), ("compact", "chk", 2), ("nostd+compact", "chk", 2), ("nostd", "chk", 2), ("alloc", "rel", 2), ("compact+alloc", "rel", 2)]]
+    rule = ("valid inputs from the boundary / range-end / tie / seam / random generators (so that every internal path class is reached: fast, disguised fast, moderate, big-integer positive and negative exponent, large 5^135 steps, sticky digit, 10^4..10^6-digit inputs), "
+            "delivered through four iterator shapes built outside the monitored window; monitor = counting #[global_allocator] (alloc, alloc_zeroed, realloc, dealloc) armed on the calling thread exactly from entry to return of parse_float; "
+            "verdict in configurations without the alloc feature: zero allocator events. Sensitivity control: the same workload in alloc configurations must show allocator events on every big-integer call (else the monitor is broken -> inconclusive). "
+            "Non-trivial = not decided by the plain fast path; distinct = distinct (input, shape).")
+
+    def post(m, results, cov, violations, inconclusive, workdir, sd):
+        ctl = {}
+        for r in results:
+            if r.summary and "alloc" in r.job.cfg:
+                cs = r.summary.get("counters", {})
+                ctl["slow_path_calls"] = ctl.get("slow_path_calls", 0) + cs.get("control.slow_path_calls", 0)
+                ctl["with_allocator_events"] = ctl.get("with_allocator_events", 0) + cs.get("control.slow_path_calls_with_allocator_events", 0)
+                ctl["allocator_events"] = ctl.get("allocator_events", 0) + cs.get("control.allocator_events", 0)
+        cov["sensitivity_control_alloc_configurations"] = ctl
+        cov["monitored_calls_without_alloc_feature"] = sum(r.summary["evals"] for r in results if r.summary and "alloc" not in r.job.cfg)
+        cov["allocator_events_without_alloc_feature"] = len([v for v in violations if "heap-allocation" in v.get("what", "")])
+        if ctl.get("slow_path_calls", 0) == 0 or ctl.get("with_allocator_events", 0) != ctl.get("slow_path_calls", 0):
+            inconclusive.append("sensitivity control failed: the monitor did not see the heap back-end allocate on every big-integer call")
+
+    return generic(prop, tier, jobs, rule, ["every Rust heap allocation goes through #[global_allocator]; raw mmap/brk calls would not be seen (the crate has no FFI)"] + ASSUME_ORACLE[1:], post=post)
+
+
+def p_c16(prop, tier):
+    sc = common.budget_scale()
+    if tier == "quick":
+        jobs = [Job("eng_pure", c, pr, shards=n, budget=B(12), args=["--threads", str(t)]) for (c, pr, n, t) in [("default", "rel", 3, 8), ("default", "rel", 1, 64), ("compact", "rel", 2, 16), ("alloc", "rel", 2, 8), ("default", "chk", 2, 4), ("nostd+compact", "rel", 1, 8)]]
+        jobs[1].name += "-64threads"
+        mcells = [("default", "rel", "miri-sb", 3), ("alloc", "rel", "miri-sb", 2), ("default", "chk", "miri-tb", 1)]
+        mset = int(8 * sc)
+        tsan = []
+    else:
+        jobs = [Job("eng_pure", c, pr, shards=n, budget=B(100), args=["--threads", str(t)]) for (c, pr, n, t) in [("default", "rel", 3, 8), ("default", "rel", 2, 64), ("compact", "rel", 2, 16), ("alloc", "rel", 2, 8), ("compact+alloc", "rel", 1, 8), ("default", "chk", 2, 4), ("alloc", "chk", 1, 4), ("nostd+compact", "rel", 2, 8)]]
+        jobs[1].name += "-64threads"
+        mcells = [(c, p, i, 4) for c in ("default", "alloc", "compact") for p in ("rel", "chk") for i in ("miri-sb", "miri-tb")]
+        mset = int(40 * sc)
+        tsan = [("default", "rel", 2), ("alloc", "rel", 2)]
+    seedno = 0
+    for (c, p, i, n) in mcells:
+        for k in range(n):
+            seedno += 1
+            j = Job("eng_pure", c, p, instr=i, shards=1, budget=30000, args=["--lean", "1", "--threads", "3", "--set", str(mset), "--rounds", "1", "--miri-schedule", str(seedno)], timeout=3000,
+                    name="eng_pure-%s-%s-%s-sched%d" % (c.replace("+", "_"), p, i, seedno))
+            j.miriflags = "-Zmiri-seed=%d -Zmiri-preemption-rate=%s" % (seedno * 7919 + seed(), ["0.01", "0.05", "0.2"][seedno % 3])
+            jobs.append(j)
+    for (c, p, n) in tsan:
+        jobs.append(Job("eng_pure", c, p, instr="tsan", shards=n, budget=B(60), args=["--threads", "8"]))
+    rule = ("valid inputs (emphasis on big-integer paths) parsed (a) through 8 iterator shapes yielding the same bytes: slice, chain of pieces cut inside/outside the 19-digit window, filter over a buffer with separators, wrapped VecDeque, rev of reversed data, "
+            "skip/take/step_by, a hand-written Clone iterator over non-contiguous chunks with size_hint (0, None); (b) from heap buffers at offsets 0..7, a stack buffer, static storage; (c) right after the stack was overwritten with 0x00 / 0xFF / 0xAA / PRNG bytes and after another (long) parse; "
+            "(d) from 3..64 threads sharing one read-only input set, each walking it in a different order, compared with the sequential results; hook traces (which tier, digit counts, limbs) must match too. "
+            "The same engine runs under Miri (data-race detector, uninitialised-read detection; one -Zmiri-seed / preemption rate per shard = one schedule) and, in thorough, under ThreadSanitizer. "
+            "Non-trivial/distinct = distinct input, plus one entry per distinct observed thread interleaving signature.")
+
+    def post(m, results, cov, violations, inconclusive, workdir, sd):
+        cov["miri_schedules_explored"] = len([r for r in results if r.summary and r.job.instr.startswith("miri")])
+        cov["miri_seeds"] = [getattr(r.job, "miriflags", "") for r in results if r.job.instr.startswith("miri")]
+        cov["tsan_executions"] = sum(r.summary["evals"] for r in results if r.summary and r.job.instr == "tsan")
+        cov["thread_counts"] = sorted(set(int(r.summary["extra"].get("threads", 0)) for r in results if r.summary))
+        cov["distinct_interleaving_signatures_upper_bound"] = m.counters.get("concurrent.interleaving_signatures", 0)
+        if cov["miri_schedules_explored"] == 0:
+            inconclusive.append("no Miri schedule completed")
+
+    return generic(prop, tier, jobs, rule, ["schedules are sampled (Miri seeds, native oversubscription, TSan), not enumerated; the code has no shared mutable state, so absence of a race report on these schedules is what is claimed"] + ASSUME_ORACLE[1:], post=post)
+
+
 def hashlib_sig(s):
     import hashlib
     return hashlib.sha1(s.encode()).hexdigest()[:16]
@@ -502,7 +633,7 @@ def hashlib_sig(s):
 
 PLANS = {
     "C01": p_oracle, "C02": p_oracle, "C06": p_oracle, "C07": p_oracle,
-    "C03": p_c03, "C04": p_c04, "C05": p_c05, "C09": p_c09, "C10": p_c10, "C11": p_c11, "C12": p_c12, "C13": p_c13, "C14": p_c14, "C17": p_c17, "C18": p_c18, "C19": p_c19,
+    "C03": p_c03, "C04": p_c04, "C05": p_c05, "C09": p_c09, "C10": p_c10, "C11": p_c11, "C12": p_c12, "C13": p_c13, "C14": p_c14, "C17": p_c17, "C18": p_c18, "C19": p_c19, "C08": p_c08, "C15": p_c15, "C16": p_c16,
 }
 
 
@@ -590,24 +721,46 @@ def replay(prop, path):
 
 # ---------------------------------------------------------------------------- setup
 
+ALL_BINS = ["eng_parse", "eng_moderate", "eng_bigint", "eng_consts", "eng_float", "eng_front", "eng_mem", "eng_pure"]
+
+
 def setup():
-    """Build every matrix cell once so that later checks only re-link what changed."""
+    """Build every matrix cell the quick checks use, so that later checks only rebuild what changed."""
     t0 = time.time()
     os.makedirs(WORK, exist_ok=True)
-    bins = ["eng_parse"]
+    os.makedirs(REPLAYS, exist_ok=True)
     ok = True
-    cells = [(c, "rel") for c in CFG8] + [(c, "chk") for c in CFG8]
+    cells = [(c, "rel", "native") for c in CFG8] + [(c, "chk", "native") for c in CFG8]
+    cells += [("default", "rel", "asan"), ("alloc", "rel", "asan")]
+
     def one(cell):
         try:
-            build(cell[0], cell[1], bins)
+            bins = ALL_BINS if cell[2] == "native" else ["eng_mem"]
+            build(cell[0], cell[1], bins, cell[2])
             return None
         except BuildError as e:
             return str(e)
+
     from concurrent.futures import ThreadPoolExecutor
-    with ThreadPoolExecutor(max_workers=4) as ex:
+    with ThreadPoolExecutor(max_workers=6) as ex:
         for err in ex.map(one, cells):
             if err:
                 ok = False
                 print(err)
-    print("setup: built %d cells in %.0fs" % (len(cells), time.time() - t0))
+    # interpreter builds (one target dir per configuration/profile; Stacked/Tree Borrows share it)
+    mcells = [("default", "rel"), ("default", "chk"), ("alloc", "rel"), ("nostd+compact", "rel"), ("compact", "chk")]
+
+    def miri_one(cell):
+        try:
+            build(cell[0], cell[1], ["eng_mem", "eng_bigint", "eng_pure"], "miri-sb")
+            return None
+        except BuildError as e:
+            return str(e)
+
+    with ThreadPoolExecutor(max_workers=5) as ex:
+        for err in ex.map(miri_one, mcells):
+            if err:
+                ok = False
+                print(err)
+    print("setup: built %d native/asan cells and %d interpreter cells in %.0fs" % (len(cells), len(mcells), time.time() - t0))
     return 0 if ok else 1
